@@ -44,6 +44,22 @@ mut("rev-F3-cascade-destructed", "break", ["C05", "C04"], "cascade child no long
     ["CW-DESTRUCT-ONCE"])
 mut("rev-F5-upgrade-split-inc", "break", ["C01", "C05"], "Weak::upgrade uses the two-RMW increment again",
     [ed(W, "if obj.try_increment_strong() {", "if obj.increment_strong() {")], ["CW-SPLIT-INC-PROTECTED"])
+mut("rev-F9-acquire-handle-assert", "break", ["C20", "C16"], "acquire_handle asserts handle_count >= 1 again",
+    [ed(I, "debug_assert!(handle_count >= 1 || self.guard_count.get() >= 1);", "debug_assert!(handle_count >= 1);")],
+    ["EBR-LIVE-PRECOND"])
+mut("live-precond-repin-asserts", "break", ["C20", "C16"], "repin asserts that the participant still has a handle",
+    [ed(I, """    pub(crate) fn repin(&self) {
+        self.acquire_handle();""", """    pub(crate) fn repin(&self) {
+        debug_assert!(self.handle_count.get() > 0, "repin on an unregistered participant");
+        self.acquire_handle();""")], ["EBR-LIVE-PRECOND"])
+mut("ok-live-precond-no-assert", "benign", [], "acquire_handle without any assertion",
+    [ed(I, """        // A guard outlives the temporary handle it was pinned through (see `with_handle`), so a
+        // live `Local` has a handle or a guard, not necessarily a handle.
+        debug_assert!(handle_count >= 1 || self.guard_count.get() >= 1);
+""", "")])
+mut("ok-live-precond-sum", "benign", [], "acquire_handle asserts liveness as a sum",
+    [ed(I, "debug_assert!(handle_count >= 1 || self.guard_count.get() >= 1);",
+        "debug_assert!(handle_count + self.guard_count.get() >= 1);")])
 mut("rev-F6-epoch-before-pin", "break", ["C02"], "decrement_strong reads the epoch before pinning",
     [ed(U, """        let local_guard;
         let guard = match guard {
